@@ -39,6 +39,9 @@ type Job struct {
 	Spec *progen.Spec `json:"spec,omitempty"`
 	Args []int        `json:"args,omitempty"` // indices of base results
 	R    int          `json:"r"`              // scan: base result
+	// Cancel > 0: the run's context is cancelled Cancel-1 ms after the wave starts. A cancelled run may
+	// fail or still succeed (then with its correct rows); the other activities are not affected by it.
+	Cancel int `json:"cancel,omitempty"`
 }
 
 // Case: base programs are run one after the other; then the base results are
@@ -112,6 +115,17 @@ func runCase(c Case) (err error) {
 	}
 	for wi, wave := range c.Waves {
 		for _, job := range wave {
+			if job.K == "run" && job.Cancel > 0 {
+				// a task that is being run on behalf of a cancelled run may be run again by another one
+				waveDiscard = true
+				if c.Exec == "bigmachine" {
+					// Session.Run returns at once when its context is cancelled, while executor goroutines
+					// of the abandoned evaluation may still be dispatching tasks; shutting the session down
+					// under them panics ("call after close" in the invocation cache). Outside the listed
+					// properties (DESIGN 10.3): such sessions are left running instead of being shut down.
+					wedged = true
+				}
+			}
 			if job.K == "discard" {
 				// a Discard runs alongside this wave (and its effect lasts): scans of base results may
 				// fail from here on, runs must recompute what they need
@@ -168,8 +182,19 @@ func runCase(c Case) (err error) {
 							errs[ji] = fmt.Errorf("harness: %v", e)
 							return
 						}
-						res, e := sess.Run(ctx, &spec, args...)
+						rctx := ctx
+						if job.Cancel > 0 {
+							cctx, cancel := context.WithCancel(ctx)
+							defer cancel()
+							tm := time.AfterFunc(time.Duration(job.Cancel-1)*time.Millisecond, cancel)
+							defer tm.Stop()
+							rctx = cctx
+						}
+						res, e := sess.Run(rctx, &spec, args...)
 						if e != nil {
+							if job.Cancel > 0 {
+								return // the user cancelled this run
+							}
 							errs[ji] = fmt.Errorf("wave %d: one of %d concurrent runs failed: %v", wi, len(wave), e)
 							return
 						}
@@ -282,6 +307,7 @@ func genCase(t *rapid.T) Case {
 	if rapid.IntRange(0, 2).Draw(t, "discard") == 0 {
 		c.Discard = []int{rapid.IntRange(0, nb-1).Draw(t, "which")}
 	}
+	cancels := rapid.IntRange(0, 3).Draw(t, "cancels") == 0
 	nw := rapid.IntRange(1, 2).Draw(t, "nwaves")
 	for w := 0; w < nw; w++ {
 		var wave []Job
@@ -306,6 +332,9 @@ func genCase(t *rapid.T) Case {
 				o.ArgSubs = append(o.ArgSubs, false)
 			}
 			job.Spec = progen.Gen(t, o)
+			if cancels && rapid.IntRange(0, 2).Draw(t, "cancelled") == 0 {
+				job.Cancel = 1 + rapid.SampledFrom([]int{0, 1, 2, 5, 15, 40}).Draw(t, "cancel_ms")
+			}
 			wave = append(wave, job)
 		}
 		c.Waves = append(c.Waves, wave)
